@@ -38,6 +38,42 @@ type Code struct {
 	pipeActive bool
 }
 
+// codeState records how far a code object has grown, so that everything that
+// was added since can be dropped again.
+type codeState struct {
+	instructions int
+	constants    int
+	names        int
+	children     int
+	source       string
+	symbols      *SymbolTable
+	symbolsState symbolTableState
+}
+
+func (c *Code) state() codeState {
+	return codeState{
+		instructions: len(c.instructions),
+		constants:    len(c.constants),
+		names:        len(c.names),
+		children:     len(c.children),
+		source:       c.source,
+		symbols:      c.symbols,
+		symbolsState: c.symbols.state(),
+	}
+}
+
+func (c *Code) restore(s codeState) {
+	c.instructions = c.instructions[:s.instructions]
+	c.constants = c.constants[:s.constants]
+	c.names = c.names[:s.names]
+	c.children = c.children[:s.children]
+	c.source = s.source
+	c.loops = nil
+	c.pipeActive = false
+	c.symbols = s.symbols
+	c.symbols.restore(s.symbolsState)
+}
+
 func (c *Code) ID() string {
 	return c.id
 }
